@@ -4,6 +4,7 @@ import (
 	"encoding/json"
 	"errors"
 	"fmt"
+	"unicode/utf8"
 
 	"github.com/xeipuuv/gojsonschema"
 
@@ -20,6 +21,10 @@ type ServiceSchemas struct {
 func ValidateServiceSchemas(schemas string) error {
 	if len(schemas) == 0 {
 		return sdkerrors.Wrap(ErrInvalidSchemas, "schemas missing")
+	}
+
+	if !utf8.ValidString(schemas) {
+		return sdkerrors.Wrap(ErrInvalidSchemas, "schemas is not valid UTF-8")
 	}
 
 	svcSchemas, err := parseServiceSchemas(schemas)
